@@ -2,8 +2,9 @@
 
     gen_types(rng)                      -> (Module, [closed type expr], notes)
     gen_value(mod, t, rng, fuel)        -> abstract value (model.encode / model.render_value)
-    values_for(mod, t, others, rng, ..) -> [(data, origin)]   origin: 'conf' | 'mut:<kind>' | 'cross' | 'random'
-    build_source(mod, types, lits)      -> Aiken source with probe_i / accept_i / enc_i / lit_i_j
+    values_for(mod, t, others, rng, ..) -> [(data, origin, abstract value | None)]
+                                           origin: 'conf' | 'mut:<kind>[@root]' | 'cross' | 'random'
+    build_source(mod, types, lits, validators) -> Aiken source with probe_i / accept_i / enc_i / rt_i / lit_i_j / v_i
     typed_values(seed, n)               -> (module_src, type_expr_str, [conforming], [nonconforming])  (for C18)
 """
 import json
@@ -597,19 +598,51 @@ def triple(i, t):
     return (
         "pub fn probe_%d(x: %s) -> Bool {\n  True\n}\n\n" % (i, s)
         + "pub fn accept_%d(d: Data) -> Data {\n  expect _x: %s = d\n  let r: Data = True\n  r\n}\n\n" % (i, s)
-        + "pub fn enc_%d(x: %s) -> Data {\n  let d: Data = x\n  d\n}\n" % (i, s)
+        + "pub fn enc_%d(x: %s) -> Data {\n  let d: Data = x\n  d\n}\n\n" % (i, s)
+        + "pub fn rt_%d(d: Data) -> Data {\n  expect x: %s = d\n  let r: Data = x\n  r\n}\n" % (i, s)
     )
+
+
+def validator_src(i, t):
+    """A real validator whose parameter, redeemer (mint) and datum (spend) have type `t`.
+    mint succeeds iff the redeemer passes the compiler-inserted check; spend iff the datum does
+    (the datum is scrutinised, so the check cannot be skipped as dead); withdraw compares the
+    parameter, up-cast to Data, with the redeemer (parameters are trusted: cast without a check).
+    The handlers deliberately do not up-cast the checked value again: `expect x: Int = d` followed
+    by `let y: Data = x` is the business of the separate `rt_i` judge (see FINDINGS.md #7)."""
+    s = M.show(t)
+    return (
+        "validator v_%d(p: %s) {\n" % (i, s)
+        + "  mint(_r: %s, _pol: ByteArray, _tx: Data) {\n    True\n  }\n\n" % s
+        + "  spend(d: Option<%s>, _r: Data, _o: Data, _tx: Data) {\n    when d is {\n      Some(_) -> True\n      None -> False\n    }\n  }\n\n" % s
+        + "  withdraw(r: Data, _c: Data, _tx: Data) {\n    let pd: Data = p\n    pd == r\n  }\n\n"
+        + "  else(_) {\n    fail\n  }\n}\n"
+    )
+
+
+def ctx_mint(redeemer):
+    return M.C(0, [M.I(0), redeemer, M.C(0, [M.B("aa" * 28)])])
+
+
+def ctx_spend(datum):
+    return M.C(0, [M.I(0), M.I(0), M.C(1, [M.C(0, [M.B("00" * 32), M.I(0)]), M.C(0, [datum])])])
+
+
+def ctx_withdraw(redeemer):
+    return M.C(0, [M.I(0), redeemer, M.C(2, [M.C(0, [M.B("bb" * 28)])])])
 
 
 def lit_fn(mod, i, j, t, av):
     return "pub fn lit_%d_%d() -> Data {\n  let v: %s = %s\n  let d: Data = v\n  d\n}\n" % (i, j, M.show(t), M.render_value(mod, t, av))
 
 
-def build_source(mod, types, lits=None):
-    """lits: {i: [abstract values]}"""
+def build_source(mod, types, lits=None, validators=()):
+    """lits: {i: [abstract values]}; validators: indices of the types that also get a real validator"""
     parts = [M.render_module(mod)]
     for i, t in enumerate(types):
         parts.append(triple(i, t))
+        if i in validators:
+            parts.append(validator_src(i, t))
         for j, av in enumerate((lits or {}).get(i, [])):
             parts.append(lit_fn(mod, i, j, t, av))
     return "\n".join(parts)
